@@ -72,6 +72,7 @@ type CallSpec struct {
 	Callee   string
 	Args     []string
 	As       string // optional ghost name for the result of the (last) matching call
+	WhenRet  string // condition over the results, evaluated at each return
 	When     string
 	Negative bool
 	Clause   *Clause
@@ -548,7 +549,11 @@ func parseSpec(s string, raw bool) (*SpecFunc, error) {
 }
 
 func parseCallSpec(s, pkg string) (*CallSpec, error) {
-	when := ""
+	when, whenret := "", ""
+	if i := strings.Index(s, " whenret "); i >= 0 {
+		whenret = strings.TrimSpace(s[i+9:])
+		s = strings.TrimSpace(s[:i])
+	}
 	if i := strings.Index(s, " when "); i >= 0 {
 		when = strings.TrimSpace(s[i+6:])
 		s = strings.TrimSpace(s[:i])
@@ -584,7 +589,7 @@ func parseCallSpec(s, pkg string) (*CallSpec, error) {
 	} else if strings.HasPrefix(callee, "(") || !strings.Contains(callee, ".") {
 		callee = pkg + "." + callee
 	}
-	cs := &CallSpec{Callee: callee, When: when, As: as}
+	cs := &CallSpec{Callee: callee, When: when, WhenRet: whenret, As: as}
 	for _, a := range splitTop(s[open+1:len(s)-1], ",") {
 		if a = strings.TrimSpace(a); a != "" {
 			cs.Args = append(cs.Args, a)
